@@ -410,7 +410,7 @@ def under_roots(path, roots):
 def run_variant(ctx, v, model, n_targets, results):
     import srv as srvmod
     s = srvmod.Server(ctx, "roots_" + v["name"], v["conf"] + '\ndebug.log-request-handling = "enable"\nmimetype.assign = (".txt" => "text/plain", ".html" => "text/html")\nindex-file.names = ("index.html")',
-                      modules=v["modules"])
+                      modules=v["modules"], sanitize=(ctx.tier == "thorough"))
     t = build_tree(s, symlinks=bool(v.get("nosym")))
     rng = ctx.rng.__class__(ctx.seed * 7919 + sum(map(ord, v["name"])))
     targets = gen_targets(rng, v["prefixes"], n_targets)
@@ -547,7 +547,7 @@ def run_xsend(ctx, model, n, results):
     conf = ('cgi.assign = (".sh" => "/bin/sh")\ncgi.x-sendfile = "enable"\ncgi.x-sendfile-docroot = ("@ROOT@/files", "@ROOT@/files2/")\n'
             'fastcgi.server = ("/fx" => (("host" => "127.0.0.1", "port" => %d, "check-local" => "disable", "x-sendfile" => "enable", "x-sendfile-docroot" => ("@ROOT@/files", "@ROOT@/files2/"))))\n'
             'debug.log-request-handling = "enable"\n' % fb.port)
-    s = srvmod.Server(ctx, "roots_xsend", conf, modules=["mod_cgi", "mod_fastcgi"])
+    s = srvmod.Server(ctx, "roots_xsend", conf, modules=["mod_cgi", "mod_fastcgi"], sanitize=(ctx.tier == "thorough"))
     t = build_tree(s); R = t.root.encode()
     roots = [R + b"/files/", R + b"/files2/"]
     rng = ctx.rng.__class__(ctx.seed * 104729 + 5)
@@ -614,7 +614,7 @@ DAV_DESTS = ["@P@/dst@I@.txt", "http://h.example@P@/dst@I@.txt", "http://user@h.
 def run_dav(ctx, model, rounds, results):
     import srv as srvmod
     conf = ('alias.url = ("/adav/" => "@ROOT@/priv/adav/")\n$HTTP["url"] =~ "^/(dav|adav)($|/)" { webdav.activate = "enable" }\n')
-    s = srvmod.Server(ctx, "roots_dav", conf, modules=["mod_alias", "mod_webdav"])
+    s = srvmod.Server(ctx, "roots_dav", conf, modules=["mod_alias", "mod_webdav"], sanitize=(ctx.tier == "thorough"))
     t = build_tree(s); R = t.root.encode()
     roots = [R + b"/www", R + b"/priv/adav"]
     rng = ctx.rng.__class__(ctx.seed * 15485863 + 11)
@@ -687,7 +687,7 @@ def run_dav(ctx, model, rounds, results):
 def run_system(ctx, label="roots-system"):
     """every server variant, the X-Sendfile backends and the WebDAV Destination sequences; returns True when a concrete violating request was found"""
     import srv as srvmod
-    srvmod.build_server()
+    srvmod.build_server(ctx.tier == "thorough")
     model = vlib.model_driver("ROOTS")
     thorough = ctx.tier == "thorough"
     results = []; stats = {}
